@@ -133,7 +133,7 @@ def force_ending(rng, stmt, base):
     """C07: make a chosen ending happen (the simulator knows which)."""
     s = copy.deepcopy(stmt)
     N = max(1, _nevals(base))
-    how = rng.wpick([(3, "none"), (3, "stop"), (2, "budget"), (2, "budget_init"), (2, "maxiter"), (1, "target")])
+    how = rng.wpick([(3, "none"), (3, "stop"), (2, "budget"), (2, "budget_init"), (2, "maxiter"), (3, "target")])
     o = s.get("options") or {}
     s["options"] = o
     if how == "stop":
@@ -149,13 +149,70 @@ def force_ending(rng, stmt, base):
         o["maxiter"] = rng.randint(1, 8)
     elif how == "target":
         evs, _ = eval_table(base)
-        fs = [e.fun for e in evs if e.fun is not None and math.isfinite(e.fun)]
-        if fs:
+        fs = [e.fun for e in evs if e.fun is not None and math.isfinite(e.fun) and abs(e.fun) < 1e20]
+        tol = feas_tol(s)
+        infeas = []
+        for e in evs:
+            if e.fun is None or not math.isfinite(e.fun) or abs(e.fun) >= 1e20:
+                continue
+            V, scale, has_nan = V_of(base, e)
+            if not has_nan and V > tol * (1.0 + 1e-6) + 1e-9:
+                infeas.append(e.fun)
+        if infeas and rng.chance(0.6):
+            # a target first met at an *infeasible* point exercises the feasibility half of the request
+            o["target"] = rng.pick(infeas)
+        elif fs:
             o["target"] = rng.pick(fs)
     return s, how
 
 
 STEP_CAP = 5 * 10 ** 6
+
+NESTED_PROF = profile(p_callback=0.3, p_inconsistent=0.0, p_all_fixed=0.0, maxfev_hi=30, p_disp=0.0,
+                      n_weights=[(3, 1), (5, 2), (2, 3)], p_no_options=0.2)
+
+
+def run_nested(stmt, faults, inner, where, at):
+    """The outer call's objective (or callback) itself calls minimize on `inner` at the given call indices:
+    every property must hold for the outer and the inner calls of re-entrant use as well."""
+    from .world import World
+    w = World()
+    inner_recs = []
+
+    def hook(ctx, kind, idx):
+        if ctx.cid != 0 or kind != where or idx not in at:
+            return
+        saved = w.reenter_hook
+        w.reenter_hook = None
+        try:
+            inner_recs.append(run_client(inner, [], world=w, cid=100 + len(inner_recs), capture=False))
+        finally:
+            w.reenter_hook = saved
+
+    w.reenter_hook = hook
+    ro = run_client(stmt, faults, world=w, cid=0)
+    return ro, inner_recs
+
+
+def nested_variant(prop, rng, stmt, plan, base, cr, props, st):
+    inner = scenario.gen_statement(rng, NESTED_PROF)
+    where = "obj" if stmt.get("obj") is not None else ("cb" if stmt.get("callback") else None)
+    if where is None:
+        return
+    N = max(1, _nevals(base))
+    at = sorted(set(rng.randint(1, N) for _ in range(rng.randint(1, 3))))
+    ro, inner_recs = run_nested(stmt, plan, inner, where, at)
+    cr.account(ro, nontrivial_needs_fault=bool(plan))
+    st["nested_worlds"] += 1
+    st["nested_inner_calls"] += len(inner_recs)
+    pay = {"engine": "nested_world", "stmt": stmt, "faults": plan, "inner": inner, "where": where, "at": at,
+           "props": list(props)}
+    if not ro.harness_error:
+        cr.add_viols(apply_props(ro, props, st), pay)
+    for r in inner_recs:
+        cr.account(r)
+        if not r.harness_error:
+            cr.add_viols(apply_props(r, props, st), dict(pay, inner_violation=True))
 
 
 def enumerate_single_faults(stmt, base, cr, props, st):
@@ -213,6 +270,8 @@ def faulted_case(prop, seed, idx, tier, step_cap=None):
         if not rec.harness_error:
             st["fault_worlds"] += 1
             cr.add_viols(apply_props(rec, props, st), payload_world(stmt2, plan, props, step_cap))
+    if prop not in ("C12", "C18") and rf.chance(0.12):
+        nested_variant(prop, rf, stmt2, plan, base, cr, props, st)
     if cr.sample is None:
         cr.sample = {"stmt": stmt2, "faults": plan}
     return cr
@@ -327,12 +386,24 @@ def cut_case(prop, seed, idx, tier):
     stmt = scenario.gen_statement(rs, prof)
     st = cr.stats
     rf = Rng(seed, "fault", prop, idx)
-    kmax = 24 if tier == "quick" else 80
+    kmax = 32 if tier == "quick" else 80
     # a recording callback is needed to observe what each call receives
     if prop in ("C09", "C20") and stmt.get("callback") is None:
         stmt["callback"] = {"style": rs.pick(["pos", "kw"]), "mutate": False, "stop_at": None}
     if stmt.get("callback"):
         stmt["callback"]["stop_at"] = None
+    prelude = None
+    if prop == "C20" and rs.chance(0.5):
+        # an earlier call in the same (freshly forked) process whose callback asks for the *other* convention:
+        # whatever the library remembers about callbacks between calls must not leak into this one
+        other = {"partial": "partialkw", "partialkw": "partial", "obj": "objkw", "objkw": "obj", "pos": "kw",
+                 "kw": "pos", "lambda": "kw", "posdefault": "kw"}[stmt["callback"]["style"]]
+        prelude = {"n": 1, "x0": [0.5], "obj": {"fam": "quad", "c": [0.0], "d": [1.0], "e": 0.0, "ret": "float", "args": None},
+                   "bounds": None, "linear": [], "nonlinear": [], "callback": {"style": other, "mutate": False, "stop_at": None},
+                   "options": {"maxfev": 4}, "constants": {}}
+        rp = run_client(prelude, [])
+        cr.account(rp)
+        st["c20.preludes"] += 1
     base0 = run_client(stmt, [])
     cr.account(base0)
     if base0.harness_error:
@@ -347,7 +418,10 @@ def cut_case(prop, seed, idx, tier):
         return cr
     N = _nevals(base)
     props = PROPS_OF[prop]
-    cr.add_viols(apply_props(base, props, st), payload_world(stmt, plan, props))
+    pw = payload_world(stmt, plan, props)
+    if prelude is not None:
+        pw["prelude"] = prelude
+    cr.add_viols(apply_props(base, props, st), pw)
     cr.sample = {"stmt": stmt, "faults": plan, "baseline_evaluations": N}
     if N == 0:
         return cr
@@ -375,14 +449,14 @@ def cut_case(prop, seed, idx, tier):
             v += W.c20(rk, st)
             if not prefix_ok(base, rk):
                 st["prefix_mismatch"] += 1
-            cr.add_viols(v, {"engine": "c20d", "stmt": stmt, "faults": plan, "k": k})
+            cr.add_viols(v, {"engine": "c20d", "stmt": stmt, "faults": plan, "k": k, "prelude": prelude})
             if not stmt["callback"].get("mutate") and (k % 2 == 1 or tier == "thorough"):
                 rb = run_client(with_budget(stmt, k), plan)
                 cr.account(rb)
                 cr.cut_points += 1
                 if not rb.harness_error:
                     cr.add_viols(c20_budget_branch(base, rb, k, st),
-                                 {"engine": "c20g", "stmt": stmt, "faults": plan, "k": k})
+                                 {"engine": "c20g", "stmt": stmt, "faults": plan, "k": k, "prelude": prelude})
     elif prop == "C09":
         evs, _ = eval_table(base)
         tol = feas_tol(stmt)
@@ -487,6 +561,11 @@ def cut_case(prop, seed, idx, tier):
                 cr.add_viols(W.c05(r2, st), payload_world(s2, plan, ["C05"]))
                 if not prefix_ok(base, r2):
                     st["prefix_mismatch"] += 1
+        if stmt.get("obj") is not None or stmt.get("callback"):
+            s2 = copy.deepcopy(stmt)
+            s2["options"] = dict(s2.get("options") or {})
+            s2["options"]["maxfev"] = rf.randint(2, max(2, N))
+            nested_variant("C05", rf, s2, plan, base, cr, ["C05"], st)
         nit = base.res["nit"] if base.res is not None else 0
         for k in sorted(set([1, 2, 3] + [rf.randint(1, max(1, nit)) for _ in range(3)])):
             s2 = copy.deepcopy(stmt)
@@ -508,11 +587,22 @@ def replay_payload(p):
     """Re-run a payload; return the list of Viol it produces now."""
     st = Counter()
     eng = p["engine"]
+    if p.get("prelude"):
+        run_client(p["prelude"], [])
     if eng == "world":
         rec = run_client(p["stmt"], p["faults"], step_cap=p.get("step_cap"))
         if rec.harness_error:
             raise RuntimeError(rec.harness_error)
         return apply_props(rec, p["props"], st)
+    if eng == "nested_world":
+        ro, inner_recs = run_nested(p["stmt"], p["faults"], p["inner"], p["where"], p["at"])
+        if ro.harness_error:
+            raise RuntimeError(ro.harness_error)
+        out = apply_props(ro, p["props"], st)
+        for r in inner_recs:
+            if not r.harness_error:
+                out += apply_props(r, p["props"], st)
+        return out
     if eng == "c20d":
         base = run_client(p["stmt"], p["faults"])
         rk = run_client(with_stop(p["stmt"], p["k"]), p["faults"])
